@@ -59,6 +59,8 @@ const KINDS: &[Kind] = &[
     Kind { name: "type: field of imported int", body: &["x := @NS@.exp_q.nofield"], top: &[], either: false },
     Kind { name: "from-import of a missing name", body: &[], top: &["from @NS@ use (nope_q)"], either: false },
     Kind { name: "from-import colliding with a definition", body: &[], top: &["from @NS@ use (exp_q)", "exp_q :: 3"], either: true },
+    // an import list spanning lines: the missing name's own line is expected
+    Kind { name: "missing name on a later line of a multi-line from-import", body: &[], top: &["from @NS@ use (\n    exp_q,\n    nothere_q,@@\n    lit2_q,\n)"], either: false },
     // the marker characters quoted mid-line further up do not shift the line of the real marker
     Kind { name: "git conflict marker below the same characters quoted in a comment", body: &[], top: &["// resolved last week: <<<<<<< HEAD stood here", "<<<<<<< HEAD"], either: false },
     Kind { name: "git conflict marker below the same characters inside a string", body: &[], top: &["note_q :: \"<<<<<<< ours\"", "    // indented: <<<<<<< theirs", "<<<<<<< HEAD"], either: false },
@@ -158,9 +160,11 @@ fn build(rng: &mut Rng, kind: &Kind, shape: Shape, where_: usize) -> Built {
             if !kind.top.is_empty() {
                 for (k, l) in kind.top.iter().enumerate() {
                     if kind.either || k == kind.top.len() - 1 {
-                        lines.push(t.matches('\n').count() + 1);
+                        // an entry may span lines: the offending one carries @@ (default: its first line)
+                        let within = l.lines().position(|x| x.contains("@@")).unwrap_or(0);
+                        lines.push(t.matches('\n').count() + 1 + within);
                     }
-                    t.push_str(&l.replace("@NS2@", ns2_name).replace("@NS@", ns_name));
+                    t.push_str(&l.replace("@NS2@", ns2_name).replace("@NS@", ns_name).replace("@@", ""));
                     t.push('\n');
                     if k + 1 < kind.top.len() {
                         filler_top(rng, shape, &mut uid, &mut t);
